@@ -247,6 +247,81 @@ def run_ras(res, h, rng, n):
     res.coverage["evaluations"] += len(ops)
 
 
+CIV_CORPUS = [
+    "civ 1 0 33 0 64 16 79=v79,79=v79,40=i5,79=v79",                 # SysV caller -> Win64 callee, three by-reference temporaries
+    "civ 1 0 33 0 64 16 79=v79,79=v79,79=v79,79=v79,40=i5,40=i6",    # four temporaries + two stack arguments
+    "civ 1 1 0 2 100 8 89=v89,40=r40,89=v89,89=v89,40=i7",           # Win64 native, 256-bit vectors (dynamic alignment)
+    "civ 1 0 33 6 40 64 99=v99,99=v99,99=v99,99=v99,40=i1",          # 512-bit vectors
+    "civ 1 0 33 8 64 16 79=v79,79=v79,79=v79,79=v79",                # preserved frame pointer
+    "civ 0 1 3 0 24 8 38=i1,38=r38,79=v79,79=v79,79=v79,79=v79,79=v79,79=v79,79=v79",   # 32-bit vectorcall, vectors on the stack
+]
+
+
+def gen_civ(rng):
+    """a real x86::Compiler function with a live local buffer that invokes a callee taking vectors (by reference on Win64)"""
+    arch = 1 if rng.random() < 0.8 else 0
+    win = rng.randrange(2)
+    cc = rng.choice((33, 33, 0, 3, 32) if arch == 1 else (0, 1, 2, 3))
+    vt, fl = rng.choice(((79, 0), (79, 2), (89, 2), (99, 6), (79, 0)))
+    if rng.random() < 0.25:
+        fl |= 8
+    nvec = rng.randrange(0, 5)
+    args = []
+    for k in range(rng.randrange(1, 9)):
+        if len([a for a in args if "v" in a]) < nvec and (k < 4 or arch == 0 or cc != 33 and not win) and rng.random() < 0.7:
+            args.append("%d=v%d" % (vt, vt))
+        else:
+            t = rng.choice((38, 40) if arch == 1 else (38,))
+            args.append("%d=%s" % (t, rng.choice(("i%x" % rng.getrandbits(16), "r%d" % t))))
+    lsize = rng.choice((0, 1, 16, 24, 40, 64, 100, 4096))
+    lalign = rng.choice((1, 4, 8, 16, 16, 32, 64))
+    return "civ %d %d %d %x %d %d %s" % (arch, win, cc, fl, lsize, lalign, ",".join(args))
+
+
+def run_civ(res, h, rng, n):
+    """frames as the Compiler really builds them around an invoke: every store before the call stays inside the call area"""
+    ops = list(CIV_CORPUS) + [gen_civ(rng) for _ in range(n)]
+    impl, rc, err = vlib.run_lines([str(h)], ops, timeout=7200)
+    if rc != 0 or len(impl) != len(ops):
+        def crashes(c):
+            o, r, _ = vlib.run_lines([str(h)], c, timeout=7200)
+            return r != 0 or len(o) != len(c)
+        small = vlib.ddmin(ops, crashes, max_tests=60) if crashes(ops) else ops[:5]
+        res.violation("harness aborted / timed out on Compiler invoke ops rc=%s: %s" % (rc, err[-1200:]), {"ops": small, "stderr": err[-3000:]},
+                      True, key="harness-abort")
+        return
+    idx = [i for i, a in enumerate(impl) if a.startswith("ok ")]
+    if len(idx) < len(ops) // 3:
+        res.violation("empty / degenerate Compiler invoke run: %d ops, %d compiled" % (len(ops), len(idx)), {"ops_head": ops[:10], "impl_head": impl[:10]},
+                      False, key="empty-run")
+        return
+    lines = []
+    for i in idx:
+        f, st = impl[i][3:].split(" |")
+        f = f.split()
+        lines.append("civmon %s %s %s | %s" % (f[0], f[2], f[3], st.strip() or "-"))
+    mon, r2, _ = vlib.run_model(PID, lines, timeout=7200)
+    if len(mon) != len(idx):
+        res.violation("driver protocol failure on Compiler invoke ops", {}, False, key="protocol")
+        return
+    nst = 0
+    seen = set()
+    for k, i in enumerate(idx):
+        nst += len(impl[i].split(" |")[1].split())
+        f = impl[i][3:].split(" |")[0].split()
+        # the invoke's own arg_stack_size (incl. temporaries) must be covered by the frame's call area
+        verdict = mon[k]
+        if verdict == "good" and int(f[7]) > int(f[0]):
+            verdict = "BAD call-area-smaller-than-invoke-stack"
+        if verdict != "good" and verdict.split()[1] not in seen:
+            seen.add(verdict.split()[1])
+            res.violation("Compiler-built frame violates C07 (call area / local area) on %r: monitor says %s; frame+stores: %s"
+                          % (ops[i], verdict, impl[i][:400]), {"ops": [ops[i]], "monitor": verdict}, True, key="civ:" + verdict.split()[1])
+    res.coverage["compiler_invoke"] = {"ops": len(ops), "compiled": len(idx), "stores_judged": nst,
+                                       "with_temporaries": sum(1 for i in idx if "v" in ops[i].split()[7])}
+    res.coverage["evaluations"] += len(ops)
+
+
 def sweep_ops(tier):
     """Every CallConvId value (valid or not) x every architecture x both platforms x a fixed battery of frames."""
     out = []
@@ -496,6 +571,7 @@ def run(res):
                      for i in (0, 4, len(ops) // 3, len(ops) // 2, len(ops) - 1)])
 
     run_ras(res, h, rng, 1500 if res.tier == "quick" else 30000)
+    run_civ(res, h, rng, 400 if res.tier == "quick" else 6000)
 
     reported = set()
     for i, m in bad:
@@ -529,8 +605,17 @@ def replay(data):
     ops = data["replay"].get("ops", [])
     h = vlib.build_harness("c07")
     impl, rc, err = vlib.run_lines([str(h)], ops, timeout=7200)   # generous: a wall-clock timeout would be reported as a violation
-    mon, _, _ = vlib.run_model(PID, [("rasmon %s | %s" % (o[4:], r[3:]) if o.startswith("ras ") else "mon " + r[3:].split(" uff ")[0])
-                                     if r.startswith("ok ") else "x" for o, r in zip(ops, impl)])
+    def monline(o, r):
+        if not r.startswith("ok "):
+            return "x"
+        if o.startswith("ras "):
+            return "rasmon %s | %s" % (o[4:], r[3:])
+        if o.startswith("civ "):
+            f, st = r[3:].split(" |")
+            f = f.split()
+            return "civmon %s %s %s | %s" % (f[0], f[2], f[3], st.strip() or "-")
+        return "mon " + r[3:].split(" uff ")[0]
+    mon, _, _ = vlib.run_model(PID, [monline(o, r) for o, r in zip(ops, impl)])
     for o, r, m in zip(ops, impl, mon):
         print(o, "->", r, "->", m)
     return 0
